@@ -20,6 +20,7 @@ import (
 	gengotypes "github.com/octohelm/gengo/pkg/types"
 
 	"verif/internal/core"
+	"verif/internal/firstuse"
 )
 
 func init() { core.Register(&prop{}) }
@@ -90,6 +91,13 @@ func (*prop) Cases(seed int64, tier string) []core.Case {
 	cs = append(cs, core.MkCase("segments", nil))
 	for i := 0; i < 4; i++ {
 		cs = append(cs, core.MkCase("order", map[string]int{"n": randN / 4}))
+	}
+	nfirst := 2
+	if tier == "thorough" {
+		nfirst = 12
+	}
+	for i := 0; i < nfirst; i++ {
+		cs = append(cs, core.MkCase("first-use", map[string]int{"procs": []int{4, 16, 2}[i%3], "g": []int{48, 16, 96}[i%3], "children": 4}))
 	}
 	return cs
 }
@@ -298,6 +306,8 @@ func (p *prop) Run(c core.Case, w *core.Worker) core.Result {
 		res.Sample(map[string]any{"Split": inputs[0], "words": camelcaseSplitSafe(inputs[0])}, 1)
 	case "order":
 		runOrder(c, w, &res)
+	case "first-use":
+		runFirstUse(c, w, &res)
 	case "segments":
 		inputs := []string{"", "_id", "-x", ".hidden", " x", "_", "__", "-", "a_", "go", "type", "2fa", "c-d", "c.d", "c~d", "v2", "yaml.v3", "json-iterator", "_x", "~user", "+inf",
 			"ID", "userID", "HTTPServer", "PDFLoader", "BöseÜberraschung", "BadUTF8\xe2\xe2\xa1", "99Bottles", "Two  spaces", "ǅx", "xǅ", "ǅ"}
@@ -350,6 +360,62 @@ func init() {
 		ob, _ := json.Marshal(convAll(inputs))
 		_ = os.WriteFile(argFile+".out", ob, 0o644)
 	})
+}
+
+// runFirstUse: fresh child processes (the -race build) whose first calls into the package are concurrent; every
+// goroutine's answers must equal this process's sequential ones, nothing may panic, the race detector must stay silent.
+func runFirstUse(c core.Case, w *core.Worker, res *core.Result) {
+	var pa map[string]int
+	c.Decode(&pa)
+	r := rand.New(rand.NewSource(c.Seed))
+	inputs := append([]string{}, orderPairs...)
+	inputs = append(inputs, "", "_", "userID", "HTTPServer", "http_server", "some-kebab-case", "PDFLoader", "BöseÜberraschung", "99Bottles", "Two  spaces", "v2", "ǅx", "İstanbul", "x y z")
+	// (inputs travel to the child as JSON: valid UTF-8 only)
+	for i := 0; i < 60; i++ {
+		inputs = append(inputs, core.RandString(r, []string{"a", "B", "c", "D", "1", "_", "-", " ", "é", "É", "ß", "İ", "x", "ID", "Http"}, 1+r.Intn(6)))
+	}
+	r.Shuffle(len(inputs), func(i, j int) { inputs[i], inputs[j] = inputs[j], inputs[i] })
+	here := firstuse.Sequential("camelcase", inputs)
+	fns := firstuse.Funcs["camelcase"]
+	for child := 0; child < pa["children"]; child++ {
+		ch := firstuse.Run(w.Scratch, fmt.Sprintf("c19-%d-%d", c.ID, child), firstuse.Arg{Kind: "camelcase", Procs: pa["procs"], G: pa["g"], Inputs: inputs})
+		res.Inc("first_use_child_processes")
+		if ch.Races > 0 {
+			res.Fail("data-race", "first use", fmt.Sprintf("the race detector reported %d data race(s) in a process whose first camelcase calls were concurrent (%d goroutines, GOMAXPROCS %d):\n%s", ch.Races, pa["g"], pa["procs"], clipS(ch.Log, 3000)), nil)
+			res.Count("first_use_race_reports", int64(ch.Races))
+		}
+		if ch.Crashed {
+			res.Fail("first-use-crash", "first use", fmt.Sprintf("the child process died before writing its results: %s\n%s", ch.Err, clipS(ch.Log, 3000)), nil)
+			continue
+		}
+		if ch.Err != "" {
+			res.Inconclusive = append(res.Inconclusive, "first-use child: "+ch.Err+" "+clipS(ch.Log, 500))
+			return
+		}
+		for g := range ch.Out {
+			for i, s := range inputs {
+				res.Evals++
+				for k, fn := range fns {
+					got := ch.Out[g][i][k]
+					switch {
+					case strings.HasPrefix(got, "\x00PANIC"):
+						res.Fail("panic", "first use "+fn.Name, fmt.Sprintf("%s(%q) panicked in a process whose first camelcase calls were concurrent: %s", fn.Name, s, got[1:]), s)
+					case got != here[i][k]:
+						res.Fail("pure", "first use "+fn.Name, fmt.Sprintf("%s(%q) = %q in goroutine %d of a process whose first camelcase calls were concurrent, %q sequentially", fn.Name, s, got, g, here[i][k]), s)
+					}
+				}
+			}
+		}
+		res.NonTrivial(fmt.Sprintf("first-use|%d|%d|%d|%d", c.Seed, child, pa["procs"], pa["g"]))
+		res.Count("first_use_results_compared", int64(len(fns)*len(inputs)*len(ch.Out)))
+	}
+}
+
+func clipS(s string, n int) string {
+	if len(s) <= n {
+		return s
+	}
+	return s[:n] + "…"
 }
 
 func runOrder(c core.Case, w *core.Worker, res *core.Result) {
